@@ -240,15 +240,18 @@ Definition gen_hash (modname name : bytes) (collision_id : N) : N :=
 
 (* a schema node with its cache node->hash[] as filled by lyb_cache_node_hash_cb(). The C array has
    LYS_NODE_HASH_COUNT entries and lyb_get_hash() generates the hash for larger collision ids; the
-   model caches all LYB_HASH_BITS values (same values, see LybHashP.get_hash_gen). *)
-Definition cnode : Type := (snode * list N)%type.
-Definition cache_node (n : snode) : cnode :=
-  (n, map (fun i => gen_hash (fst n) (snd n) (N.of_nat i)) (seq 0 (N.to_nat Consts.LYB_HASH_BITS))).
+   model caches all LYB_HASH_BITS values (same values, see LybHashP.get_hash_gen). The type carries the
+   fact that the cache holds the generated hashes (erased by extraction). *)
+Definition hash_cache (n : snode) : list N :=
+  map (fun i => gen_hash (fst n) (snd n) (N.of_nat i)) (seq 0 (N.to_nat Consts.LYB_HASH_BITS)).
+Definition cnode : Type := { c : snode * list N | snd c = hash_cache (fst c) }.
+Definition cache_node (n : snode) : cnode := exist _ (n, hash_cache n) eq_refl.
+Definition node_of (c : cnode) : snode := fst (proj1_sig c).
 (* lyb_get_hash() *)
 Definition get_hash (c : cnode) (collision_id : N) : N :=
-  match nth_error (snd c) (N.to_nat collision_id) with
+  match nth_error (snd (proj1_sig c)) (N.to_nat collision_id) with
   | Some v => v
-  | None => gen_hash (fst (fst c)) (snd (fst c)) collision_id
+  | None => gen_hash (fst (node_of c)) (snd (node_of c)) collision_id
   end.
 
 Definition hash_siblings (l : list snode) : option (list (hrec cnode)) :=
